@@ -12,4 +12,8 @@ CLAIMED["C04"] = {
   "text": "Index.WriteTo -> bytes -> IndexFromReader executed symbolically for every index of N chunks with symbolic parameters, sizes and IDs: z3 shows the round trip is the identity, that an independent in-harness parser of the caibx layout recovers the same table (header 48, tail offset 48, tail size 16+40N+40, marker), that every strict prefix is rejected, that the digest flag must match the configured digest, and that any accepted table (arbitrary rows) has non-decreasing offsets, no chunk above the maximum and re-encodes byte-identically when its tail fields are canonical.",
   "note": "Bounds: N<=3 chunks quick / <=6 thorough (tables: <=3 / <=5 rows); sizes < 2^40 each, first chunk non-empty (offset 0 is the table terminator). Index stores (local file, stdin/stdout, HTTP, S3) are not encoded: the claim is for the codec they all share. Trusted: engine, z3, in-harness reference parser.",
 }
+CLAIMED["C17"] = {
+  "text": "The whole VerifyIndex (stat, worker goroutines, errgroup, batching feeder, fileSeedSegment.Validate) is executed symbolically over a model file system: for symbolic file contents and an independently damaged ID per chunk z3 shows result==nil iff length matches and every chunk hashes to its ID, for every explored goroutine schedule; for larger chunk counts a single damaged chunk at a symbolic position is always noticed, so the batching visits every chunk.",
+  "note": "Bounds: all-positions harness K<=3 chunks (thorough 5) x n in {1,2} workers x file length K-1/K/K+1, preemption bound 1 (thorough 2); batching harness (K,n) in {(10..12,1),(19..21,1),(20,2),(21,2),(23,2)} quick, K=6..44 with n=1, selected K with n=2,3,8 and K in {100,119,120,130} thorough, one damaged position symbolic, no forced preemption. Chunks are 1 byte. Block devices (length check skipped by design) are out. Trusted: engine incl. model FS and scheduler, z3, collision-free hash abstraction.",
+}
 NA = {}
